@@ -76,7 +76,19 @@ func returnsOf(f *ssa.Function) []retInfo {
 		if !ok || b == f.Recover || len(ret.Results) == 0 {
 			continue
 		}
-		out = append(out, retInfo{ret, core.IsNilConst(ret.Results[0]), ret.Results[0], core.CondsAt(b)})
+		v := ret.Results[0]
+		// results spilled to a cell because of a defer: take the value stored last in this block
+		if ld, isLd := v.(*ssa.UnOp); isLd && ld.Op == token.MUL {
+			if cell, isCell := ld.X.(*ssa.Alloc); isCell {
+				for k := len(b.Instrs) - 1; k >= 0; k-- {
+					if st, isSt := b.Instrs[k].(*ssa.Store); isSt && st.Addr == ssa.Value(cell) {
+						v = st.Val
+						break
+					}
+				}
+			}
+		}
+		out = append(out, retInfo{ret, core.IsNilConst(v), v, core.CondsAt(b)})
 	}
 	return out
 }
